@@ -104,7 +104,9 @@ func (pm *PromptMessage) UnmarshalJSON(data []byte) error {
 		Alias: (*Alias)(pm),
 	}
 
-	if err := json.Unmarshal(data, &temp); err != nil {
+	// temp is a pointer already: unmarshalling into &temp would set it to nil for a JSON null (a null
+	// item in "messages"), and the field accesses below would dereference nil.
+	if err := json.Unmarshal(data, temp); err != nil {
 		return fmt.Errorf("failed to unmarshal prompt message structure: %w", err)
 	}
 
